@@ -51,8 +51,9 @@ def apply(key, st, op, t):
     """one key-management step at time t; returns the (possibly re-imported / copied) key object to continue with"""
     if op == 0:                                         # add a second identity (text)
         if 'second' not in st.uids:
-            key.add_uid(PGPUID.new('second'), usage={KeyFlags.Certify}, hashes=[HashAlgorithm.SHA512], created=t)
-            st.uids['second'] = {'flags': {KeyFlags.Certify}, 'primary': False, 'revoked': False}
+            # also marked primary: two primary-marked identities, the newer one listed first until it is demoted
+            key.add_uid(PGPUID.new('second'), usage={KeyFlags.Certify}, hashes=[HashAlgorithm.SHA512], primary=True, created=t)
+            st.uids['second'] = {'flags': {KeyFlags.Certify}, 'primary': True, 'revoked': False}
     elif op == 1:                                       # add an image identity
         if 'img' not in st.uids:
             key.add_uid(PGPUID.new(bytearray(b'\xff\xd8\xff\xe0\x00\x10JFIF\x00' + bytes(8))), created=t)
@@ -111,9 +112,16 @@ def uid_name(u):
 
 def consistent(key, st):
     pub = key.pubkey
+    order = None
     for view, label in ((key, 'priv'), (pub, 'pub'), (PGPKey.from_blob(pub.__bytes__())[0], 'pub-reimported'), (copy.copy(pub), 'pub-copy')):
         names = sorted(uid_name(u) for u in list(view.userids) + list(view.userattributes))
         if names != sorted(st.uids):
+            return False
+        # every view lists the identities in the same order (the first one decides the key's own flags and preferences)
+        this = [uid_name(u) for u in view.userids]
+        if order is None:
+            order = this
+        elif this != order:
             return False
         if sorted(view.subkeys) != sorted(s[0] for s in st.subs):
             return False
